@@ -1,5 +1,5 @@
 """Observer-level checks: C06 memory contract, C07 constant time, C19 reentrancy, C20 erasure."""
-import os, json, re, itertools
+import os, glob, json, re, itertools
 from tjv import *
 from fam_cipher import chunks, KLEN, flip
 from fam_hash import run_exec_groups, sim_plans, datav
@@ -104,6 +104,13 @@ def mem_plan(chk, r):
         g.append([f"hkextract id=kl{fi}x obj=1 key={datav(r, 9)} salt=-"] +
                  [f"hkexpand id=kl{fi}e{j} obj=1 info=- len={ln} pl={'es'[j % 2]}" for j, ln in enumerate(fam)])
     G.extend(chunks(g, 150))
+    # a 300 KB packet decrypted by a thread with a 96 KiB stack: the library's stack use does not grow with the message
+    g = []
+    for v in (128, 192, 256):
+        for mode in ('aead', 'siv'):
+            for al in (0, 1):
+                g.append([f"decbig id=ss{v}{mode}{al} mode={mode} v={v} seed={r.randint(1, 2 ** 40)} adlen=5 mlen=300007 tamper={al * 2} pos=3 alias={al} pf=165 cls=r smallstack=1"])
+    G.append(g)
     # PBKDF2 output lengths, PRNG sizes with full / short / failing sources, clean, permutation
     g = []
     for ln in range(0, 71):
@@ -344,6 +351,20 @@ def check_C20(chk):
             judge_o(chk, 'TV_Obs', split_executions(ev), f"{name}: ")
             if len(chk.cov['samples']) < 3:
                 chk.sample([trim(e, 8) for e in ev if e.get('e') in ('HFree', 'PFree', 'Clean')][:3])
+    # the definitions agree with the public prototypes: every library source compiled with the public header pre-included
+    # (a definition that takes size_t where the header says unsigned reads a register half the caller never set)
+    pd = os.path.join(chk.wd, 'proto')
+    write_config_h(pd, set(HOST_HAS))
+    nproto = 0
+    for f in sorted(glob.glob(os.path.join(REPO, 'src', '*.c')) + glob.glob(os.path.join(REPO, 'src', 'backend', '*.c'))
+                    + glob.glob(os.path.join(REPO, 'src', 'random', '*.c'))):
+        rc, out = sh(f"gcc -std=gnu99 -fsyntax-only -DHAVE_CONFIG_H -I{REPO}/src -I{REPO}/src/backend -I{pd} -include {REPO}/src/TinyJAMBU.h {f}")
+        nproto += 1
+        if rc != 0 and 'conflicting types' in out:
+            first = next((ln for ln in out.splitlines() if 'conflicting types' in ln), out[:200])
+            chk.violation(f"{os.path.basename(f)}: a definition disagrees with its prototype in TinyJAMBU.h: {first.strip()[-200:]}",
+                          dict(kind='prototype', file=os.path.basename(f), compiler_output=out[:1500]))
+    chk.cov['sources_compiled_against_public_header'] = nproto
     chk.cov['erasure_events'] = nfree
     prims = {b.split(':')[1] for b in chk.cov['builds']}
     chk.cov['erasure_primitives_exercised'] = sorted(prims)
